@@ -75,6 +75,8 @@ class Runtime:
         self.steps = 0
         self.max_steps = max_steps
         self.clock = 0
+        self.coarse = 1
+        self.subticks = 0
         self.trace = []
         self.objs = itertools.count()
         self.main = None
@@ -435,7 +437,9 @@ class FThread:
 def f_time():
     if POR:
         RT.point(('time', 'clock'))
-    RT.clock += 1
+    RT.subticks += 1
+    if RT.subticks % RT.coarse == 0:      # coarse > 1: several calls read the same clock value (finite clock resolution)
+        RT.clock += 1
     return float(RT.clock)
 
 
